@@ -146,3 +146,38 @@ def mutants(check, names, mdir=None, keep_replays=False):
             missed += 1
             print("     ", r[2])
     return 0 if missed == 0 else 1
+
+
+ALL_CHECKS = ["C01", "C02", "C03", "C04", "C05", "C06", "C07", "C08", "C09", "C10", "C11", "C12", "C15", "C16", "C17"]
+
+def refactors(check, names):
+    """Benign refactors (refactors/*.diff) keep every property: no check may raise an alarm."""
+    here = check.HERE
+    rdir = os.path.join(here, "refactors")
+    all_names = sorted(f[:-5] for f in os.listdir(rdir) if f.endswith(".diff"))
+    names = [n for n in all_names if not names or any(x in n for x in names)]
+    bad = 0
+    for name in names:
+        work = os.path.join(SCRATCH, name)
+        shutil.rmtree(work, ignore_errors=True)
+        os.makedirs(work)
+        repo = os.path.join(work, "repo")
+        subprocess.run(["rsync", "-a", "--exclude", "target", "--exclude", ".git", check.REPO + "/", repo + "/"], check=True)
+        r = subprocess.run(["patch", "-p1", "-s", "-i", os.path.join(rdir, name + ".diff")], cwd=repo, stdout=subprocess.PIPE, stderr=subprocess.STDOUT, text=True)
+        if r.returncode != 0:
+            print(name, "PATCH-FAILED")
+            bad += 1
+            continue
+        harness = os.path.join(work, "verif")
+        subprocess.run(["rsync", "-a", "--exclude", "target", "--exclude", ".git", "--exclude", "evidence", "--exclude", "replays", "--exclude", "seeded", "--exclude", "shadow", here + "/", harness + "/"], check=True)
+        env = dict(os.environ, VERIF_REPO=repo, VERIF_SCALE=os.environ.get("VERIF_SCALE", "0.15"))
+        out = []
+        for pid in ALL_CHECKS:
+            c = subprocess.run([os.path.join(harness, "check"), pid, "quick"], cwd=harness, env=env, stdout=subprocess.PIPE, stderr=subprocess.PIPE, text=True)
+            if c.returncode != 0:
+                detail = [l for l in (c.stdout + c.stderr).splitlines() if l.startswith("violation of") or l.startswith("VIOLATION") or l.startswith("HARNESS")]
+                out.append((pid, c.returncode, detail[:2]))
+        print(f"{name:50s} {'QUIET (all 15 checks exit 0)' if not out else 'ALARM ' + str(out)}", flush=True)
+        bad += len(out)
+        shutil.rmtree(work, ignore_errors=True)
+    return 0 if bad == 0 else 1
